@@ -73,6 +73,13 @@ class RepItems:
         self.items, self.loop = items, loop
 
 
+class AltItems:
+    """items contributed when `test` holds (a) / does not hold (b)"""
+
+    def __init__(self, test: ast.AST, a: list, b: list):
+        self.test, self.a, self.b = test, a, b
+
+
 class Seq:
     def __init__(self, items: list, ordered: str = ""):
         self.items = items
@@ -162,6 +169,13 @@ class Evaluator:
                 return inner if not isinstance(inner, (Unk,)) else Hole(e)
             if isinstance(fn, ast.Attribute) and fn.attr == "join" and len(e.args) == 1:
                 sep = S(fn.value)
+                alt = self._list_alternatives(e.args[0])
+                if alt is not None:
+                    test, a, b = alt
+                    try:
+                        return Alt(test, self._join(sep, self.sequence(a, depth + 1)), self._join(sep, self.sequence(b, depth + 1)))
+                    except NotInterpretable as ex:
+                        return Unk(f"join argument: {ex}", e)
                 try:
                     seq = self.sequence(e.args[0], depth + 1)
                 except NotInterpretable as ex:
@@ -216,6 +230,10 @@ class Evaluator:
                     inner = conv(it.items, False)
                     body = Cat(_interleave(inner, sep)) if len(inner) != 1 else inner[0]
                     out.append(Rep(body, sep, it.loop))
+                elif isinstance(it, AltItems):
+                    out.append(Alt(it.test, Cat(_interleave(conv(it.a, False), sep)), Cat(_interleave(conv(it.b, False), sep))))
+                elif isinstance(it, tuple):
+                    continue
                 else:
                     out.append(it)
             return out
@@ -240,27 +258,38 @@ class Evaluator:
             return Lit(v) if v is not None else Hole(e)
         if defs == [self.g.entry]:
             return Hole(e)
+        return self._from_defs(e, defs, depth, frozenset())
+
+    def _from_defs(self, e: ast.Name, defs, depth: int, visiting: frozenset) -> Shape:
         plain, augs = [], []
         for d in defs:
             st = self.g.stmt[d] if d != self.g.entry else None
             if isinstance(st, ast.AugAssign) and isinstance(st.op, ast.Add):
-                augs.append(st)
+                augs.append((d, st))
             elif isinstance(st, ast.Assign) and len(st.targets) == 1 and isinstance(st.targets[0], ast.Name):
                 plain.append(st)
             elif isinstance(st, ast.AnnAssign) and st.value is not None:
                 plain.append(st)
             else:
                 return Hole(e)
-        if augs:
-            # all += on this name that reach the use, in source order, on top of the plain definition(s)
-            base = self._plain(plain, e, depth) if plain else Unk("accumulator without initial value", e)
-            parts = [base]
-            for a in sorted(augs, key=lambda s: (s.lineno, s.col_offset)):
-                piece = self.string(a.value, depth + 1)
-                piece = self._guarded(piece, a, e)
-                parts.append(piece)
-            return Cat(parts)
-        return self._plain(plain, e, depth)
+        if not augs:
+            return self._plain(plain, e, depth)
+        # accumulation: the value before the earliest `+=` (its own reaching definitions), then every `+=` in source order
+        augs.sort(key=lambda x: (x[1].lineno, x[1].col_offset))
+        incoming = set()
+        for d, st in augs:
+            incoming |= {x for x in self.rd.defs_reaching(d, e.id)}
+        aug_nodes = {d for d, _ in augs}
+        base_defs = sorted((incoming | {self.g.node_of(p_) for p_ in plain}) - aug_nodes - set(visiting) - {None})
+        if base_defs and depth < 20:
+            base = self._from_defs(e, base_defs, depth + 1, visiting | aug_nodes)
+        else:
+            base = Unk("accumulator without initial value", e)
+        parts = [base]
+        for _d, a_ in augs:
+            piece = self.string(a_.value, depth + 1)
+            parts.append(self._guarded(piece, a_, e))
+        return Cat(_merge_reps(_flat(Cat(parts))))
 
     def _guarded(self, piece: Shape, site: ast.stmt, use: ast.AST):
         """wrap a piece contributed at `site` in the loops / conditions that lie between it and the use"""
@@ -338,13 +367,54 @@ class Evaluator:
         if isinstance(e, ast.BinOp) and isinstance(e.op, ast.Add):
             a, b = self.sequence(e.left, depth + 1), self.sequence(e.right, depth + 1)
             return Seq(a.items + b.items)
+        if isinstance(e, ast.BinOp) and isinstance(e.op, ast.Mult):
+            lst, cnt = (e.left, e.right) if isinstance(e.left, (ast.List, ast.Tuple)) else (e.right, e.left)
+            if isinstance(lst, (ast.List, ast.Tuple)):
+                inner = self.sequence(lst, depth + 1)
+                return Seq([RepItems(inner.items, Loop(cnt, None, [], e))])
         if isinstance(e, ast.IfExp):
             raise NotInterpretable("conditional list")
         if isinstance(e, ast.Name):
             return self._list_name(e, depth)
+        if isinstance(e, ast.Call) and isinstance(e.func, ast.Attribute) and e.func.attr in ("keys", "values", "copy") and not e.args:
+            inner = e.func.value
+            return Seq([RepItems([Hole(e)], Loop(e, None, [], e))])
+        if isinstance(e, (ast.Attribute, ast.Subscript, ast.Call)):
+            # an iterable that is not built here: one string per element
+            return Seq([RepItems([Hole(e)], Loop(e, None, [], e))])
         raise NotInterpretable(f"{type(e).__name__} as a list of strings")
 
+    def _list_alternatives(self, e: ast.AST):
+        """a list name assigned in both branches of an if/else: (test, value when true, value when false)"""
+        if not isinstance(e, ast.Name):
+            return None
+        try:
+            at = self.node_of(e)
+        except KeyError:
+            return None
+        defs = [d for d in self.rd.defs_reaching(at, e.id) if d != self.g.entry]
+        if len(defs) != 2:
+            return None
+        a, b = (self.g.stmt[d] for d in defs)
+        if not all(isinstance(x, ast.Assign) and len(x.targets) == 1 and isinstance(x.targets[0], ast.Name) for x in (a, b)):
+            return None
+        for st in self._enclosing(a):
+            if isinstance(st, ast.If):
+                in_a_body = any(a is x for s_ in st.body for x in ast.walk(s_))
+                in_b_else = any(b is x for s_ in st.orelse for x in ast.walk(s_))
+                in_b_body = any(b is x for s_ in st.body for x in ast.walk(s_))
+                in_a_else = any(a is x for s_ in st.orelse for x in ast.walk(s_))
+                if in_a_body and in_b_else:
+                    return st.test, a.value, b.value
+                if in_b_body and in_a_else:
+                    return st.test, b.value, a.value
+        return None
+
     def _list_name(self, e: ast.Name, depth: int) -> Seq:
+        alt = self._list_alternatives(e)
+        if alt is not None:
+            test, a, b = alt
+            return Seq([AltItems(test, self.sequence(a, depth + 1).items, self.sequence(b, depth + 1).items)])
         at = self.node_of(e)
         defs = [d for d in self.rd.defs_reaching(at, e.id)]
         if len(defs) != 1 or defs[0] == self.g.entry:
@@ -451,6 +521,19 @@ def _merge(items: list, new: list) -> list:
     return items + new
 
 
+def _merge_reps(parts: List[Shape]) -> List[Shape]:
+    """pieces appended by consecutive statements of the same loop body belong to the same iteration"""
+    out: List[Shape] = []
+    for p in parts:
+        if isinstance(p, Rep) and out and isinstance(out[-1], Rep) and p.sep is None and out[-1].sep is None and \
+                p.loop.node is not None and p.loop.node is out[-1].loop.node:
+            prev = out.pop()
+            out.append(Rep(Cat(_merge_reps(_flat(prev.body) + _flat(p.body))), None, prev.loop))
+        else:
+            out.append(p)
+    return out
+
+
 def _const_index(sl: ast.AST):
     if isinstance(sl, ast.Constant) and isinstance(sl.value, int):
         return sl.value
@@ -523,7 +606,13 @@ def render_seq(seq: Seq, hole: Callable[[ast.AST], str], valuation=None) -> List
 
     def go(items):
         for it in items:
-            if isinstance(it, RepItems):
+            if isinstance(it, AltItems):
+                out.append("<")
+                go(it.a)
+                out.append("|")
+                go(it.b)
+                out.append(">")
+            elif isinstance(it, RepItems):
                 out.append("[")
                 go(it.items)
                 out.append("]*")
@@ -572,3 +661,32 @@ def unknowns(sh) -> List[str]:
     if isinstance(sh, Alt):
         return unknowns(sh.a) + unknowns(sh.b)
     return []
+
+
+def branches(sh, limit: int = 64) -> List[Shape]:
+    """the alternative-free shapes a shape can take (conditional pieces chosen either way)"""
+    if isinstance(sh, Alt):
+        return (branches(sh.a, limit) + branches(sh.b, limit))[:limit]
+    if isinstance(sh, Cat):
+        outs: List[List[Shape]] = [[]]
+        for p in sh.parts:
+            bs = branches(p, limit)
+            outs = [o + [b] for o in outs for b in bs][:limit]
+        return [Cat(o) for o in outs]
+    if isinstance(sh, Rep):
+        return [Rep(b, sh.sep, sh.loop) for b in branches(sh.body, limit)]
+    return [sh]
+
+
+def reps(sh) -> List[Rep]:
+    """all repetitions inside a shape (outermost first)"""
+    out: List[Rep] = []
+    if isinstance(sh, Rep):
+        out.append(sh)
+        out += reps(sh.body)
+    elif isinstance(sh, Cat):
+        for p in sh.parts:
+            out += reps(p)
+    elif isinstance(sh, Alt):
+        out += reps(sh.a) + reps(sh.b)
+    return out
